@@ -5,3 +5,5 @@
 //! and nothing here is compiled unless the `verif` feature is enabled.
 
 pub mod codecs;
+pub mod pipes;
+pub mod session;
